@@ -211,7 +211,17 @@ def run(ck):
         "position-far-outside-the-text": [["open", "a.td", "class A;\n"], ["idle"], ["req", 1, "hover", "a.td", 4000000000, 4000000000], ["req", 2, "completion", "a.td", 7, 0],
                                           ["req", 3, "inlayHint", "a.td", 0, 0, 4000000000, 0], ["req", 4, "documentSymbol", "a.td"]],
     }
-    olines = ["srv " + json.dumps({"dir": "%s/tmp/odd%d" % (core.BUILD, i), "disk": {}, "script": sc, "timeout_ms": 20000}) for i, sc in enumerate(odd.values())]
+    # requests of every kind for a file that is on disk but was never opened or included, while the diagnostics run of a big file is
+    # still going, while nothing is going, and after an edit: each is answered (a result or an error) and the server goes on
+    on_disk = {"b.td": "class B { int x = 1; }\ndef d : B;\n"}
+    kinds_b = [["foldingRange", "b.td"], ["documentSymbol", "b.td"], ["documentLink", "b.td"], ["inlayHint", "b.td", 0, 0, 5, 0], ["definition", "b.td", 1, 8],
+               ["references", "b.td", 0, 7], ["hover", "b.td", 0, 7], ["completion", "b.td", 0, 0]]
+    for ki, kb in enumerate(kinds_b):
+        odd["%s-for-a-file-only-on-disk-while-a-run-is-going" % kb[0]] = [
+            ["open", "a.td", huge], ["req", 1] + kb, ["req", 2, "hover", "a.td", 0, 7], ["idle"],
+            ["req", 3] + kb, ["idle"], ["change", "a.td", huge + "// x\n"], ["req", 4] + kb, ["req", 5, "documentSymbol", "a.td"]]
+    odd_disk = {name: (on_disk if "only-on-disk" in name else {}) for name in odd}
+    olines = ["srv " + json.dumps({"dir": "%s/tmp/odd%d" % (core.BUILD, i), "disk": odd_disk[name], "script": sc, "timeout_ms": 20000}) for i, (name, sc) in enumerate(odd.items())]
     orr = core.impl(olines, timeout=120, jobs=4, tag="o08")
     for (name, sc), line, r in zip(odd.items(), olines, orr):
         try:
